@@ -278,13 +278,17 @@ class DataConnection(Connection, abc.ABC):
         if self.state in (ConnectionState.CLOSED, ConnectionState.CLOSING):
             return
 
-        await self.set_state(ConnectionState.CLOSING, close_reason=reason)
-        adapter.debug("disconnecting : %s", reason.name, extra=self.__dict__)
-        self._cancel_queued_messages()
+        writer_closed = False
         try:
+            # Reporting the state awaits the listeners: when the task gets
+            # cancelled there the connection still needs to end up CLOSED
+            await self.set_state(ConnectionState.CLOSING, close_reason=reason)
+            adapter.debug("disconnecting : %s", reason.name, extra=self.__dict__)
+            self._cancel_queued_messages()
             if self._writer is not None:
                 if not self._writer.is_closing():
                     self._writer.close()
+                writer_closed = True
 
                 async with atimeout(DISCONNECT_TIMEOUT):
                     await self._writer.wait_closed()
@@ -294,6 +298,10 @@ class DataConnection(Connection, abc.ABC):
                 "exception while disconnecting : %r", exc, extra=self.__dict__)
 
         finally:
+            if not writer_closed and self._writer is not None:
+                if not self._writer.is_closing():
+                    self._writer.close()
+
             await self.set_state(ConnectionState.CLOSED, close_reason=reason)
             # Because disconnect can be called when read failed setting the
             # reader task to none should be done last
